@@ -4,8 +4,10 @@ correspondence: Model/RRule.lean (`construct`, `iter`) vs dateutil.rrule.rrule o
 oracle:         dateutil.rrule.rrule vs Spec/RRule.lean (`window`, `byOk`, `onGrid`) + intrinsic laws
 """
 import sys, datetime, signal, json, itertools
+import os
 import basecorr
 import vlib
+from props import c01_hist as H
 
 PROP = "C01"
 TRUSTED = [
@@ -499,6 +501,17 @@ def classify(ctx, cases, tag):
 
 def correspondence(ctx):
     basecorr.run(ctx)
+    # shared-state audit: rrule._iter / _iterinfo write no attribute of the rule object other than _len, read only what
+    # __init__ created, and build their iteration state (_iterinfo) locally — the model's `State` is per iterator
+    # (C01.interleaved_iterators_independent).  A new site is a broken correspondence; the history stream then runs
+    # with the thorough budget to find an interleaving on which two iterators of one object disagree.
+    new, gone = H.audit(ctx, os.environ.get("DATEUTIL_REPO", "/repo"))
+    if new or gone:
+        ctx.mismatch("shared-state audit (rrule._iter / _iterinfo / __init__ attribute sites vs c01_shared_state_sites.json)",
+                     "src/dateutil/rrule.py", "new: %s; removed: %s" % (new[:12], gone[:12]),
+                     "iteration state is local to the generator; the only attribute of the rule object an iteration writes is _len")
+        ctx.count("shared_state_sites_new_or_changed", len(new) + len(gone))
+        ctx.escalated = True
     cases = list(WITNESS_CASES) + gen_cases(ctx, "corr", ctx.budget(300, 5000), malformed_rate=0.15)
     cases += ambient_cases(ctx, "corr-ambient", ctx.budget(30, 600))
     reqs_c = ["rrule.construct " + wire(c) for c in cases]
@@ -662,6 +675,7 @@ def oracle(ctx):
     amb = ambient_cases(ctx, "oracle-ambient", ctx.budget(40, 800))
     ctx.count("oracle_ambient_firstweekday_cases", len(amb))
     evaluate(ctx, amb)
+    interleave_stream(ctx)
     rng_cases = gen_cases(ctx, "oracle", ctx.budget(400, 6500))
     for i in range(0, len(rng_cases), 500):
         evaluate(ctx, rng_cases[i:i + 500])
@@ -678,6 +692,108 @@ def oracle(ctx):
     ctx.note("per-rule cap = %d executed source %s of dateutil/rrule.py (a function of the rule, not of the clock): "
              "%d of %d rule runs were cut off and compared on the prefix delivered so far; wall-clock failsafe hits: %d"
              % (WORKCAP, _CAP_KIND[0], ncap, nall, TIME_FAILSAFE[0]))
+
+
+HIST_SEEDS = [
+    # two iterators of one DAILY rule on both sides of a year end; nested loops over a YEARLY rule with several
+    # results per period; a query inside a loop; an rruleset holding the rule twice next to a plain iterator
+    ({"freq": 3, "interval": 1, "wkst": None, "dtstart": [2004, 12, 20, 9, 0, 0, 0], "kind": "naive", "n": 60},
+     [["new", 0], ["next", 0, 40], ["new", 1], ["next", 1, 1], ["next", 0, 3], ["next", 1, 20], ["next", 0, 3], ["next", 1, 3]]),
+    ({"freq": 0, "interval": 1, "wkst": None, "dtstart": [1997, 1, 1, 9, 0, 0, 0], "kind": "naive", "bymonth": [1, 3], "byweekday": [[1, 0], [3, 0]], "n": 60},
+     [["new", 0], ["next", 0, 3], ["new", 1], ["next", 1, 25], ["next", 0, 5], ["next", 1, 2], ["next", 0, 30]]),
+    ({"freq": 1, "interval": 1, "wkst": None, "dtstart": [2020, 1, 1, 9, 0, 0, 0], "kind": "naive", "byweekday": [[4, -1], [0, 1]], "n": 50},
+     [["new", 0], ["next", 0, 1], ["between", 20, 30, True, 0], ["next", 0, 3], ["getitem", 40], ["next", 0, 3], ["after", 30, 0, False], ["next", 0, 2]]),
+    ({"freq": 2, "interval": 2, "wkst": 6, "dtstart": [2019, 12, 1, 9, 0, 0, 0], "kind": "naive", "byweekday": [[1, 0], [6, 0]], "count": 40, "n": 45},
+     [["new", 0], ["next", 0, 5], ["setnew", 1], ["next", 1, 17], ["next", 0, 3], ["count"], ["next", 1, 3], ["next", 0, 30], ["next", 1, 30]]),
+    ({"freq": 0, "interval": 1, "wkst": None, "dtstart": [2000, 1, 1, 0, 0, 0, 0], "kind": "naive", "byeaster": [0, 1], "n": 30},
+     [["new", 0], ["next", 0, 1], ["new", 1], ["next", 1, 7], ["next", 0, 2], ["next", 1, 2], ["next", 0, 9]]),
+    ({"freq": 0, "interval": 1, "wkst": 0, "dtstart": [2008, 12, 1, 0, 0, 0, 0], "kind": "naive", "byweekno": [1, -1], "byweekday": [[0, 0], [6, 0]], "n": 30},
+     [["new", 0], ["next", 0, 2], ["new", 1], ["next", 1, 9], ["next", 0, 2], ["contains", 12, 0], ["next", 1, 2], ["next", 0, 9]]),
+]
+
+
+def _ref_run(c, nref):
+    """what a FRESH iterator over a separately built object delivers: (status, items)"""
+    st, items, r = run_impl(c, nref, work=4 * WORKCAP)
+    return st, items
+
+
+def run_hist_case(ctx, c, hist, tag):
+    """one history on one object; reports through `report`; returns False when skipped"""
+    nref = c["n"]
+    st, ref = _ref_run(c, nref)
+    if st not in ("more", "stop") or not ref:
+        ctx.count("hist_skipped_" + st.split("_")[0])
+        return False
+    _install_work_counter()
+    old = signal.signal(signal.SIGALRM, _alarm)
+    _WORK[0], _WORK[1] = 0, 40 * WORKCAP
+    res = None
+    try:
+        signal.setitimer(signal.ITIMER_REAL, 20.0)
+        try:
+            res = H.run_history(lambda: build(c), ref, st, hist)
+        except (_TurnCap, _Timeout):
+            ctx.count("hist_cap_skipped")
+            return False
+        except Exception as ex:
+            res = ("%s raised during an interleaved history although a fresh iterator delivers %d items without error"
+                   % (type(ex).__name__, len(ref)), {"exception": "%s: %s" % (type(ex).__name__, str(ex)[:200])})
+        finally:
+            signal.setitimer(signal.ITIMER_REAL, 0)
+    except _Timeout:
+        ctx.count("hist_cap_skipped")
+        return False
+    finally:
+        _WORK[1] = 1 << 62
+        signal.signal(signal.SIGALRM, old)
+    ctx.count("hist_cases")
+    ctx.count("hist_" + tag)
+    ctx.count("hist_events", len(hist))
+    ctx.count("hist_freq_%d" % c["freq"])
+    key = canon(c) + json.dumps(hist)
+    ctx.case(key)
+    if res is not None:
+        case = {"rule": {k: c.get(k) for k in ["freq", "interval", "wkst", "fwd", "wkst_obj", "count", "until", "dtstart", "kind", "n", "until_isdate", "until_othertz", "scalars"] + BYKEYS},
+                "history": hist, "diff": {"kind": "interleaved"}}
+        ctx.violation(res[0], case, res[1])
+    return True
+
+
+def interleave_stream(ctx):
+    """ONE OBJECT, SEVERAL LIVE ITERATORS: see c01_hist.py"""
+    rng = ctx.subrng("interleave")
+    for c, hist in HIST_SEEDS:
+        run_hist_case(ctx, dict(c), hist, "seed")
+    n = ctx.budget(70, 2500)
+    done = 0
+    tries = 0
+    while done < n and tries < 3 * n:
+        tries += 1
+        c = gen_case(rng)
+        plan_until(c, rng)
+        if rng.random() < 0.5:
+            # starts shortly before a year end, so that iterators of a sub-yearly rule soon sit in different years
+            y = c["dtstart"][0]
+            c["dtstart"][1:3] = [12, rng.choice([1, 15, 20, 28, 31])] if c["freq"] >= 1 else c["dtstart"][1:3]
+            if c.get("until") is not None and rng.random() < 0.7:
+                c.pop("until"); c.pop("until_isdate", None); c.pop("until_othertz", None)
+        c["n"] = rng.choice([30, 60, 60, 120, 120, 450])
+        if c["freq"] >= 4 and c["interval"] < 200 and rng.random() < 0.6:
+            c["interval"] = c["interval"] * rng.choice([7, 24, 60, 1440])        # sub-daily rules that do cross days
+        st, ref = _ref_run(c, c["n"])
+        if st not in ("more", "stop") or not ref:
+            continue
+        finite = st == "stop"
+        hist = H.gen_history(rng, len(ref), finite)
+        if run_hist_case(ctx, c, hist, "generated"):
+            done += 1
+        if len(unknown_violations(ctx)) >= 3:
+            break
+    ctx.note("interleaved-iterator histories: %d run (%d events) on one uncached rule object each, 2-4 live iterators + between/after/"
+             "before/count/indexing/slicing/in + an rruleset holding the rule twice; every iterator and query compared with the "
+             "sequence of a fresh iterator over a separately built object"
+             % (ctx.hist.get("hist_cases", 0), ctx.hist.get("hist_events", 0)))
 
 
 def report(ctx, what, case, detail=None):
@@ -943,7 +1059,10 @@ KNOWN = {k: _known(p) for k, p in CLASS.items()}
 def replay(ctx, payload):
     c = dict(payload["violation"]["case"]["rule"])
     before = len(ctx.violations)
-    evaluate(ctx, [c])
+    if payload["violation"]["case"].get("history") is not None:
+        run_hist_case(ctx, c, payload["violation"]["case"]["history"], "replay")
+    else:
+        evaluate(ctx, [c])
     new = ctx.violations[before:]
     for v in new:
         print("still failing:", v["what"])
